@@ -88,6 +88,24 @@ class Tracer:
             return _File(self, f, path)
         return builtins.open(file, mode, *a, **kw)
 
+    def wrap_copy2(self, module):
+        """`module.shutil.copy2` (as used by eups.utils.copyfile): the audit hook reports the `open` of the destination
+        (creat/trunc) before the copy; the copy itself is one call, so its `write` and `close` are reported after it
+        (a kill at either point finds the destination complete)."""
+        real, tr = module.shutil, self
+
+        class _Shutil:
+            def __getattr__(self, n):
+                return getattr(real, n)
+
+            def copy2(self, src, dst, *a, **kw):
+                r = real.copy2(src, dst, *a, **kw)
+                if tr.watched(dst):
+                    tr.effect("write", os.path.abspath(dst))
+                    tr.effect("close", os.path.abspath(dst))
+                return r
+        module.shutil = _Shutil()
+
     def install(self):
         sys.addaudithook(self.hook)
         for m in ("db.VersionFile", "db.ChainFile"):
